@@ -378,40 +378,56 @@ Section ReduceFacts.
     rewrite firstn_plus. f_equal. rewrite skipn_plus. f_equal. f_equal. lia.
   Qed.
 
-  Lemma reduce_run_correct : forall (init : T) xs t g lo hi v,
-      (forall a, f a init = a) ->
-      wf_rtree g lo hi t = true ->
-      reduce_run (fun _ => init) (fun lo hi v => fold_left f (slice_of xs lo hi) v) f lo hi t v
-      = fold_left f (slice_of xs lo hi) v.
+  Lemma ofold_app : forall v l1 l2, ofold f (ofold f v l1) l2 = ofold f v (l1 ++ l2).
   Proof.
-    intros init xs t. induction t as [|mid fresh l IHl r IHr]; intros g lo hi v Hid Hwf;
+    intros v l1 l2. destruct v as [a|]; cbn [ofold].
+    - rewrite fold_left_app. reflexivity.
+    - destruct l1 as [|x r]; cbn [ofold app]; [reflexivity|]. rewrite fold_left_app. reflexivity.
+  Qed.
+
+  Lemma ojoin_ofold : forall v l, ojoin f v (ofold f None l) = ofold f v l.
+  Proof.
+    intros v l. destruct v as [a|]; destruct l as [|x r]; cbn [ofold ojoin fold_left]; auto.
+    rewrite fold_left_assoc. reflexivity.
+  Qed.
+
+  Lemma reduce_run_correct : forall xs t g lo hi v,
+      wf_rtree g lo hi t = true ->
+      reduce_run (fun _ => None) (fun lo hi v => ofold f v (slice_of xs lo hi)) (ojoin f) lo hi t v
+      = ofold f v (slice_of xs lo hi).
+  Proof.
+    intros xs t. induction t as [|mid fresh l IHl r IHr]; intros g lo hi v Hwf;
       cbn [reduce_run wf_rtree] in *; [reflexivity|].
     rewrite !andb_true_iff in Hwf. destruct Hwf as ((((_ & H1) & H2) & H3) & H4).
     apply Nat.ltb_lt in H1, H2.
     rewrite (IHl g lo mid) by auto. destruct fresh.
     - rewrite (IHr g mid hi) by auto.
-      rewrite <- fold_left_assoc, Hid, <- fold_left_app, slice_app by lia. reflexivity.
-    - rewrite (IHr g mid hi) by auto. rewrite <- fold_left_app, slice_app by lia. reflexivity.
+      rewrite ojoin_ofold, ofold_app, slice_app by lia. reflexivity.
+    - rewrite (IHr g mid hi) by auto. rewrite ofold_app, slice_app by lia. reflexivity.
   Qed.
 
+  (* reduce(Par) after the fix: every init, only associativity *)
   Lemma reduce_par_correct : forall xs init grain t,
-      (forall a, f a init = a) -> legal_reduce grain (length xs) t = true ->
+      legal_reduce grain (length xs) t = true ->
       reduce_par f xs init t = reduce_seq f xs init.
   Proof.
-    intros xs init grain t Hid HL. unfold reduce_par, reduce_seq, reduce_top, legal_reduce in *.
+    intros xs init grain t HL. unfold reduce_par, reduce_seq, reduce_top, legal_reduce in *.
     destruct (length xs =? 0) eqn:E.
     - apply Nat.eqb_eq in E. destruct xs; [reflexivity|discriminate].
-    - cbn [orb] in HL. change (fun lo hi v => fold_left f (firstn (hi - lo) (skipn lo xs)) v)
-        with (fun lo hi v => fold_left f (slice_of xs lo hi) v).
-      rewrite (reduce_run_correct init xs t grain 0 (length xs)) by auto.
-      unfold slice_of. rewrite Nat.sub_0_r. cbn [skipn]. rewrite firstn_all. reflexivity.
+    - cbn [orb] in HL. change (fun lo hi v => ofold f v (firstn (hi - lo) (skipn lo xs)))
+        with (fun lo hi v => ofold f v (slice_of xs lo hi)).
+      rewrite (reduce_run_correct xs t grain 0 (length xs)) by auto.
+      unfold slice_of. rewrite Nat.sub_0_r. cbn [skipn]. rewrite firstn_all.
+      destruct xs as [|x r]; [discriminate|]. cbn [ofold fold_left].
+      rewrite fold_left_assoc. reflexivity.
   Qed.
 End ReduceFacts.
 
-(* F7: without the identity hypothesis the template differs from the fold *)
+(* historical (F7): the body before fix fc899df2 folded init in once per split body *)
 Lemma reduce_nonidentity_counterexample :
   legal_reduce 1 2 (RNode 1 true RLeaf RLeaf) = true /\
-  reduce_par Z.add [1; 1]%Z 10%Z (RNode 1 true RLeaf RLeaf) = 22%Z /\
+  reduce_par_before_fix Z.add [1; 1]%Z 10%Z (RNode 1 true RLeaf RLeaf) = 22%Z /\
+  reduce_par Z.add [1; 1]%Z 10%Z (RNode 1 true RLeaf RLeaf) = 12%Z /\
   reduce_seq Z.add [1; 1]%Z 10%Z = 12%Z.
 Proof. repeat split. Qed.
 
